@@ -32,7 +32,6 @@ import (
 
 	"github.com/juev/hledger-lsp/internal/analyzer"
 	"github.com/juev/hledger-lsp/internal/ast"
-	"github.com/juev/hledger-lsp/internal/parser"
 	"github.com/juev/hledger-lsp/internal/server"
 	"github.com/juev/hledger-lsp/internal/workspace"
 )
@@ -605,7 +604,7 @@ func c15Measure(c *Ctx, dir string, scn *c15Scn, sites []c15Site) (all c15Sets, 
 // ---------------------------------------------------------------------------- abstract inputs
 
 func parseFile(scn *c15Scn, rel string) *ast.Journal {
-	j, _ := parser.Parse(scn.Files[rel])
+	j, _ := hxParse(scn.Files[rel])
 	return j
 }
 
@@ -637,7 +636,7 @@ func c15Input(dir string, scn *c15Scn, st c15Site) any {
 	switch st.Kind {
 	case "balance":
 		txs := [][][]string{}
-		doc, _ := parser.Parse(scn.docContent(c15Root))
+		doc, _ := hxParse(scn.docContent(c15Root))
 		for i := range doc.Transactions {
 			br := analyzer.CheckBalance(&doc.Transactions[i])
 			if br.Balanced || (br.InferredIdx == -1 && len(br.Differences) == 0) {
